@@ -1,1 +1,3 @@
 pub mod common;
+pub mod tree;
+pub mod treeparse;
